@@ -314,7 +314,12 @@ class ExprMixin:
             c = r
             if c.op == "DictKeys":
                 c = c.args[0]
-            if c.op == "Dict" and all(k[0] == "k" for k in c.attr):
+            if c.op == "Call" and c.args and c.args[0].op == "Ext" and c.args[0].attr in (
+                    "builtins.frozenset", "builtins.set", "builtins.tuple", "builtins.list") and len(c.args) == 2:
+                c = c.args[1]               # frozenset({...}) holds what the literal holds
+            if c.op == "Set" and all(self.const_key(a) is not self.NOKEY for a in c.args):
+                keys = [self.const_key(a) for a in c.args]
+            elif c.op == "Dict" and all(k[0] == "k" for k in c.attr):
                 keys = [k[1] for k in c.attr]
             elif c.op in ("Tuple", "List") and all(self.const_key(a) is not self.NOKEY for a in c.args):
                 keys = [self.const_key(a) for a in c.args]
